@@ -359,7 +359,7 @@ func limitsFor(n int, explicit []int, rnd *rand.Rand) []int {
 	set := map[int]bool{1: true, n / 2: true, 1024: true}
 	if n > 20000 {
 		// very long texts (deep family): thousands of one-value chunks make the trace expensive without adding anything
-		set = map[int]bool{n / 2: true, 1024: true, 97: true}
+		set = map[int]bool{n / 2: true, 1024: true}
 	}
 	if n <= 3000 {
 		for _, l := range []int{2, 7, n - 1, n, n + 1} {
@@ -1201,15 +1201,19 @@ func deepCases(quick bool) []deepCase {
 			if quick && pat != (di+sd)%3 {
 				continue
 			}
-			add(d, pat, opts{HTMLUnsafe: true})
-			add(d, pat, opts{Sort: true})
+			// (objects with several members are written with Sort: without it every call emits its own member order and
+			// every one of the long texts has to be judged separately)
+			add(d, pat, opts{HTMLUnsafe: true, Sort: pat != 0})
+			if !quick || (di+sd)%2 == 0 {
+				add(d, pat, opts{Sort: true, Indent: 0, OmitNil: true})
+			}
 		}
 	}
 	// depth x indent crossing the 128- and the 256-byte tables
 	for ind := 1; ind <= 8; ind++ {
 		for _, size := range []int{128, 256} {
 			base := size/ind + 1
-			if base > 300 || (size == 256 && ind == 1 && quick) {
+			if base > 300 || (quick && size == 256 && ind != 2 && ind != 4 && ind != 8) {
 				continue
 			}
 			ds := []int{base}
